@@ -13,7 +13,7 @@ Operation descriptors are hashable tuples made of plain values (DESIGN 3.1):
   ("drop", name)            ("h_remove_all", name)        ("remove_all",)
   ("update", ast, spec, measurement|None, via)            spec = tuple of (key, value) pairs
   ("update_all", spec, via)
-  ("reindex",)   ("reopen",)   ("handle", name)
+  ("reindex",)   ("reopen",) | ("reopen", "with")   ("handle", name)
   ("count"|"get"|"contains"|"search"|"search_unsorted", ast, measurement|None)  reads as transitions
 """
 
@@ -204,7 +204,11 @@ class World:
         if k == "reindex":
             return db.reindex()
         if k == "reopen":
-            db.close()
+            if op[1:] == ("with",):
+                with db as entered:  # leaving the context closes the database
+                    assert entered is db
+            else:
+                db.close()
             self.handles = {}
             self.db = self._open()
             return None
